@@ -559,3 +559,29 @@ func UsesInOneNode(n int) dump.File {
 	sb.WriteString(" } }")
 	return dump.File{Name: "m.yang", Text: sb.String()}
 }
+
+// ImportLadder: n levels of two modules each; both modules of a level import both modules of the
+// next level, and the two at the bottom import a module that is not there (missing) or a last,
+// complete one. Every module is reached on 2^level paths: a resolver that walks paths instead of
+// modules does not come back.
+func ImportLadder(n int, missing bool) []dump.File {
+	var fs []dump.File
+	for l := 0; l < n; l++ {
+		for _, side := range []string{"a", "b"} {
+			name := fmt.Sprintf("l%d%s", l, side)
+			var sb strings.Builder
+			sb.WriteString(hdr(name))
+			if l+1 < n {
+				fmt.Fprintf(&sb, " import l%da { prefix x; } import l%db { prefix y; } leaf v { type x:t; }", l+1, l+1)
+			} else {
+				sb.WriteString(" import bottom { prefix x; }")
+			}
+			sb.WriteString(" typedef t { type string; } }")
+			fs = append(fs, dump.File{Name: name + ".yang", Text: sb.String()})
+		}
+	}
+	if !missing {
+		fs = append(fs, dump.File{Name: "bottom.yang", Text: hdr("bottom") + " typedef t { type string; } }"})
+	}
+	return fs
+}
